@@ -1,36 +1,55 @@
 (* Property C03 — failure of a critical task drives a live environment to ERROR; the same failure
    of a non-critical task never changes the environment's state.
    Model: model/Watcher.v (on RoleTree.v and TaskCmd.v); lemmas: proofs/Watcher_proofs.v.
-   A schedule is a list of [action]s (fault injection, one pending role update, watcher steps, timer
-   callback, begin / end of a request, the STOP of a TASK_INTERNAL_ERROR handler); the theorems hold
-   for all of them.  [reachable s]: s is the state after any schedule from a freshly created
-   environment of any workflow. *)
+   A schedule is a list of [action]s (fault injection, one pending role update - whole or split at
+   the hand-over of the task role to its parent -, a late reply, watcher steps, timer callback,
+   begin / end of a request, the STOP of a TASK_INTERNAL_ERROR handler); the theorems hold for all
+   of them.  [reachable s]: s is the state after any schedule from a freshly created environment
+   of any workflow.
+   Behaviour modelled: /repo with the repairs fix C03-a (a workflow already in ERROR at
+   subscription is handled like a notification) and fix C03-cd (TASK_INTERNAL_ERROR: the role goes
+   to ERROR in any state, the run is stopped only for a critical task). *)
 From Verif Require Import Common RoleTree RoleTree_proofs TaskCmd Watcher Watcher_proofs.
 Open Scope N_scope.
 
-(* ---- the full statement, and why it is false for the code as it is ---- *)
+(* ---- non-critical tasks: the full statement, now a theorem ---- *)
+
+Definition C03_noncritical_full_statement : Prop := noncritical_full_statement.
+
+(* every kind of failure (terminal Mesos status, executor lost, agent lost, TASK_INTERNAL_ERROR) that
+   hits only non-critical tasks of an idle reachable environment leaves its state alone, whatever
+   the order in which the updates, the watcher, the timer and the handlers run.  Was refuted by
+   TASK_INTERNAL_ERROR before fix C03-cd (finding C03-c; corpus case corpus-internal-noncritical is
+   the regression case, monitor class 2) *)
+Theorem C03_noncritical_inert : C03_noncritical_full_statement.
+Proof. exact noncritical_full_statement_holds. Qed.
+Print Assumptions C03_noncritical_inert.
+
+(* the same without "idle" and "reachable": nothing critical in flight, watcher started, no handler
+   waiting; the watcher is never armed either *)
+Theorem C03_noncritical_inert_general :
+  forall s f sched,
+    (forall i, In i (fault_victims f) -> crit_of s i = false) ->
+    (forall u, In u (w_pend s) -> upd_noncrit s u) ->
+    w_watch s <> WTimer -> w_watch s <> WNotStarted -> w_istop s = O ->
+    forallb handler_action sched = true ->
+    w_env (wrun sched (wstep (AFault f) s)) = w_env s /\
+    w_watch (wrun sched (wstep (AFault f) s)) <> WTimer.
+Proof. exact noncritical_inert. Qed.
+Print Assumptions C03_noncritical_inert_general.
+
+(* ---- critical tasks: the full statement is still false for one reason, the lossy fan-out ---- *)
 
 Definition C03_full_statement : Prop := full_statement.
-Definition C03_noncritical_full_statement : Prop := noncritical_full_statement.
 
 Theorem C03_full_refuted : ~ C03_full_statement.
 Proof. exact full_statement_refuted. Qed.
 Print Assumptions C03_full_refuted.
 
-(* C03-a: the critical task fails after the CONFIGURE of the creation and before subscribeToWfState
-   (watcher NotStarted): the watcher finds the workflow in ERROR, never enters its loop; the completed
-   schedule ends CONFIGURED with the root role in ERROR.  Replayed on the implementation (corpus case
-   corpus-early-critical). *)
-Theorem C03_already_error_refuted :
-  let s := wrun wit_a_sched (wstep (AFault (FDead [0%nat])) (created wit_tree wit_paths)) in
-  crit_of (created wit_tree wit_paths) 0%nat = true /\ w_watch (created wit_tree wit_paths) = WNotStarted /\
-  wquiet s = true /\ w_env s = E_CONFIGURED /\ w_watch s = WGone /\ st_of (w_tree s) = ERROR.
-Proof. split; [reflexivity|]. split; [reflexivity|]. exact wit_a. Qed.
-Print Assumptions C03_already_error_refuted.
-
-(* C03-b: the ERROR reaches the ParentAdapter while the watcher is not in its select - right after
-   its subscription, or between two selects after it took another notification - and is dropped;
-   nothing sends it again.  Model-level only (the window cannot be forced from outside). *)
+(* C03-b (design level, not repaired): the ERROR reaches the ParentAdapter while the watcher is not
+   in its select - right after its subscription, or between two selects after it took another
+   notification - and is dropped by the non-blocking send; nothing sends it again.  Model-level only
+   (the window cannot be forced from outside). *)
 Theorem C03_lost_notification_refuted :
   (let s0 := wrun wit_b1_pre (created wit_tree wit_paths) in
    let s := wrun wit_b1_sched (wstep (AFault (FDead [0%nat])) s0) in
@@ -46,41 +65,29 @@ Proof.
 Qed.
 Print Assumptions C03_lost_notification_refuted.
 
-(* C03-d: TASK_INTERNAL_ERROR of a critical task in a CONFIGURED environment changes nothing at all.
-   Replayed (corpus case corpus-internal-critical-configured). *)
-Theorem C03_internal_error_configured_refuted :
-  let s0 := wrun wit_d_pre (created wit_tree wit_paths) in
-  let s := wstep (AFault (FInternal 0%nat)) s0 in
-  crit_of s0 0%nat = true /\ wquiet s = true /\ w_env s = E_CONFIGURED /\ s = s0.
-Proof. exact wit_d. Qed.
-Print Assumptions C03_internal_error_configured_refuted.
+(* ---- what holds, for every workflow, state, victim, failure kind and schedule ---- *)
 
-(* C03-c: TASK_INTERNAL_ERROR of a non-critical task stops the run.  Replayed (corpus case
-   corpus-internal-noncritical). *)
-Theorem C03_noncritical_internal_error_refuted : ~ C03_noncritical_full_statement.
-Proof. exact noncritical_full_statement_refuted. Qed.
-Print Assumptions C03_noncritical_internal_error_refuted.
-
-(* ---- what does hold, for every workflow, state, victim and schedule ---- *)
-
-(* every failure puts the state ERROR of each victim in flight (terminal Mesos status, executor lost,
-   agent lost: with status INACTIVE; TASK_INTERNAL_ERROR: only while RUNNING, together with a
-   STOP_ACTIVITY request) *)
+(* every failure puts the state ERROR of each victim in flight: terminal Mesos status, executor lost,
+   agent lost with status INACTIVE; TASK_INTERNAL_ERROR in ANY environment state (was: only while
+   RUNNING, finding C03-d), together with a STOP_ACTIVITY request when the task is critical and the
+   environment RUNNING *)
 Theorem C03_fault_sends_error :
   (forall vs i s, In i vs -> In (PState i ERROR) (w_pend (wstep (AFault (FDead vs)) s))) /\
-  (forall v s, w_env s = E_RUNNING ->
-     In (PRole v ERROR) (w_pend (wstep (AFault (FInternal v)) s)) /\
-     w_istop (wstep (AFault (FInternal v)) s) = S (w_istop s)).
+  (forall v s, In (PRole v ERROR) (w_pend (wstep (AFault (FInternal v)) s)) /\
+     (crit_of s v = true -> w_env s = E_RUNNING ->
+      w_istop (wstep (AFault (FInternal v)) s) = S (w_istop s))).
 Proof. split; [exact fault_pends_error|exact fault_internal_pends]. Qed.
 Print Assumptions C03_fault_sends_error.
 
-(* C03_ideal, under the exact hypothesis that makes it true: if the ERROR update of a critical task
-   role runs while the watcher is in its select, every completed schedule - whatever requests,
-   further failures and updates it interleaves - ends with the environment in ERROR *)
+(* C03_ideal, under the one hypothesis that remains (C03-b): if the ERROR update of a critical task
+   role - the whole update, or only its second half, the hand-over to the parent role after other
+   updates of the same task have overwritten the role's cache ([PFwd]) - runs while the watcher is in
+   its select, every completed schedule - whatever requests, further failures, late replies and
+   updates it interleaves - ends with the environment in ERROR *)
 Theorem C03_ideal_partial :
   forall s k u i sched,
     reachable s ->
-    nth_error (w_pend s) k = Some u -> (u = PState i ERROR \/ u = PRole i ERROR) ->
+    nth_error (w_pend s) k = Some u -> (u = PState i ERROR \/ u = PRole i ERROR \/ u = PFwd i ERROR) ->
     crit_of s i = true ->
     w_watch s = WWaiting ->
     wquiet (wrun sched (wstep (AUpd k) s)) = true ->
@@ -89,6 +96,42 @@ Proof.
   intros s k u i sched R. apply ideal_partial. apply reachable_Inv. exact R.
 Qed.
 Print Assumptions C03_ideal_partial.
+
+(* a failure before the watcher has subscribed (e.g. inside an after_CONFIGURE hook of the creation):
+   the watcher finds the workflow in ERROR and every completed schedule ends in ERROR.  Was refuted
+   before fix C03-a (corpus case corpus-early-critical is the regression case, monitor class 3).  The
+   second part: the ERROR update of a critical task role leaves the root aggregator in ERROR. *)
+Theorem C03_error_before_subscription :
+  (forall s sched, reachable s -> w_watch s = WNotStarted -> st_of (w_tree s) = ERROR ->
+     wquiet (wrun sched (wstep AWStart s)) = true -> w_env (wrun sched (wstep AWStart s)) = E_ERROR) /\
+  (forall p t, is_agg t = true -> critp t p = true -> st_of (fst (upd_state p ERROR t)) = ERROR).
+Proof.
+  split.
+  - intros s sched R. apply error_before_subscription. apply reachable_Inv. exact R.
+  - exact root_error_after_crit_update.
+Qed.
+Print Assumptions C03_error_before_subscription.
+
+(* the three former witnesses, replayed on the implementation by the corpus, now end as the property
+   asks: (a) critical task dead before the subscription -> ERROR; (c) TASK_INTERNAL_ERROR of the
+   non-critical task while RUNNING -> role ERROR, still RUNNING; (d) TASK_INTERNAL_ERROR of the
+   critical task while CONFIGURED -> ERROR *)
+Theorem C03_repaired_witnesses :
+  (let s := wrun wit_a_sched (wstep (AFault (FDead [0%nat])) (created wit_tree wit_paths)) in
+   wquiet s = true /\ w_env s = E_ERROR) /\
+  (let s0 := wrun wit_c_pre (created wit_tree wit_paths) in
+   let s := wrun wit_c_sched (wstep (AFault (FInternal 1%nat)) s0) in
+   w_env s0 = E_RUNNING /\ crit_of s0 1%nat = false /\ wquiet s = true /\ w_env s = E_RUNNING) /\
+  (let s0 := wrun wit_d_pre (created wit_tree wit_paths) in
+   let s := wrun [AUpd 0; AFire []] (wstep (AFault (FInternal 0%nat)) s0) in
+   crit_of s0 0%nat = true /\ w_env s0 = E_CONFIGURED /\ wquiet s = true /\ w_env s = E_ERROR).
+Proof.
+  split; [|split].
+  - pose proof wit_a as [A [B _]]. split; assumption.
+  - pose proof wit_c as [_ [B [C [D [E _]]]]]. repeat split; assumption.
+  - exact wit_d.
+Qed.
+Print Assumptions C03_repaired_witnesses.
 
 (* once the timer is armed nothing disarms it, and ERROR is never left *)
 Theorem C03_armed_timer_ends_in_ERROR :
@@ -129,21 +172,6 @@ Theorem C03_timer_callback_from_RUNNING :
 Proof. exact fire_from_running. Qed.
 Print Assumptions C03_timer_callback_from_RUNNING.
 
-(* non-critical tasks: a terminal Mesos status, a lost executor or a lost agent that hits only
-   non-critical tasks never changes the environment state nor arms the watcher, whatever the order
-   in which the updates, the watcher and the timer run (no hypothesis on the workflow or the state
-   other than: nothing critical already in flight) *)
-Theorem C03_noncritical_inert_partial :
-  forall s vs sched,
-    (forall i, In i vs -> crit_of s i = false) ->
-    (forall u, In u (w_pend s) -> upd_noncrit s u) ->
-    w_watch s <> WTimer ->
-    forallb internal_action sched = true ->
-    w_env (wrun sched (wstep (AFault (FDead vs)) s)) = w_env s /\
-    w_watch (wrun sched (wstep (AFault (FDead vs)) s)) <> WTimer.
-Proof. exact noncritical_inert. Qed.
-Print Assumptions C03_noncritical_inert_partial.
-
 (* the role-tree facts the above rest on, for every tree and path *)
 Theorem C03_critical_error_reaches_adapter :
   forall p t, critp t p = true -> snd (upd_state p ERROR t) = Some ERROR.
@@ -154,6 +182,29 @@ Theorem C03_noncritical_update_reaches_nobody :
   forall p v t, critp t p = false -> snd (upd_state p v t) = None.
 Proof. exact upd_state_noncrit. Qed.
 Print Assumptions C03_noncritical_update_reaches_nobody.
+
+(* the hand-over of a task / call role: the source passes the parameter of updateState /
+   updateStatus to the parent (counted by the translator leafhandover on every run), and in the
+   model the value a critical role was called with reaches the ParentAdapter whatever the role's
+   cache holds when it is handed over; doing both halves at once is RoleTree.upd_state *)
+Theorem C03_leaf_hands_incoming_value :
+  leaf_hands_incoming = true /\
+  (forall p t, critp t p = true -> snd (fwd_state p ERROR t) = Some ERROR) /\
+  (forall p v t, upd_state p v t = fwd_state p v (map_at p (write_leaf_f v) t)).
+Proof. split; [exact leaf_handover_in_source|]. split; [exact fwd_state_ERROR_crit|exact upd_state_split]. Qed.
+Print Assumptions C03_leaf_hands_incoming_value.
+
+(* the interleaving the harness forces (corpus cases corpus-overtaken-...): the ERROR update of the
+   dying critical task is stopped between its two halves, a late RUNNING reply of the same task runs
+   to its end, the first goes on: ERROR, run end stamped, although the role reports RUNNING *)
+Theorem C03_overtaken_error_still_arrives :
+  let s0 := wrun wit_ok_pre (created wit_tree wit_paths) in
+  let s := run_sop (SRace 0%nat RUNNING [SendFail]) s0 in
+  w_env s0 = E_RUNNING /\ w_watch s0 = WWaiting /\
+  w_env s = E_ERROR /\ w_rend s = RSet /\ wquiet s = true /\
+  leaf_at (w_tree s) [0%nat] = Some (true, RUNNING, INACTIVE) /\ st_of (w_tree s) = ERROR.
+Proof. exact wit_race. Qed.
+Print Assumptions C03_overtaken_error_still_arrives.
 
 (* the hypotheses of C03_ideal_partial are met by a concrete run: RUNNING environment, watcher in
    its select, the critical task's ERROR pending; the schedule update / timer / replies ends in
